@@ -509,6 +509,18 @@ pub fn families(tier: Tier, variant: &str) -> Vec<Family> {
             ctx.violation(&class, json!({"input_prefix": show(short), "input_len": d.len(), "panic": msg}));
         }
     }));
+    {
+        // long numbers around rounding midpoints (the slow big-decimal paths)
+        let pats = crate::props::c07::halfway_bit_patterns(true);
+        let pats: Vec<u64> = pats.into_iter().enumerate().filter(|(i, _)| !q || i % 5 == 0).map(|(_, b)| b).collect();
+        v.push(Family::of_vec("plain/halfway-number-literals", pats, |bits, ctx| {
+            for lit in crate::props::c07::halfway_literals(*bits) {
+                check_plain(ctx, lit.as_bytes(), false);
+                check_plain(ctx, format!("[{lit},-{lit}e-5]").as_bytes(), false);
+            }
+            ctx.nontrivial();
+        }));
+    }
     v.push(seq("plain/s17", gen::S17, if q { 4 } else { 5 }, b"", b"", false, false));
     v.push(seq("plain/t16", gen::T16, if q { 4 } else { 5 }, b"", b"", false, false));
     v.push(seq("plain/b11-string", gen::B11, if q { 4 } else { 6 }, b"\"", b"\"", false, false));
